@@ -67,9 +67,12 @@ func (core *JApiCore) findPaste(macroName string, d *directive.Directive, visite
 			return nil
 		}
 		visited[name] = struct{}{}
-		if m, ok := core.macro[name]; ok {
-			return core.findPaste(macroName, m, visited)
+		m, ok := core.macro[name]
+		if !ok {
+			// also in a macro that is never pasted
+			return d.KeywordError("macro not found")
 		}
+		return core.findPaste(macroName, m, visited)
 	} else if d.Children != nil {
 		for _, c := range d.Children {
 			if je := core.findPaste(macroName, c, visited); je != nil {
